@@ -470,17 +470,17 @@ class CodeBuilder:
 
                     allowed_keys_str = ", ".join(map(repr, allowed_keys))
 
-                    self.add_line("d_keys = set(d.keys())")
-                    self.add_line(
-                        f"forbidden_keys = d_keys - {{{allowed_keys_str}}}"
-                    )
-                    with self.indent("if forbidden_keys:"):
-                        self.add_line(
-                            "raise ExtraKeysError(forbidden_keys,cls) "
-                            "from None"
-                        )
-
                 with self.indent("try:"):
+                    if config.forbid_extra_keys:
+                        self.add_line("d_keys = set(d.keys())")
+                        self.add_line(
+                            f"forbidden_keys = d_keys - {{{allowed_keys_str}}}"
+                        )
+                        with self.indent("if forbidden_keys:"):
+                            self.add_line(
+                                "raise ExtraKeysError(forbidden_keys,cls) "
+                                "from None"
+                            )
                     for fname, alias, ftype in filtered_fields:
                         self.add_type_modules(ftype)
                         metadata = self.metadatas.get(fname, {})
